@@ -169,6 +169,40 @@ SPELLED = [(".5", 0.5), ("-.25", -0.25), ("+3", 3), ("5.", 5), ("1e1", 10), ("2.
            ("1e-1", 0.1), ("+.5e1", 5), ("-0", 0), ("00012.50", 12.5), ("4E0", 4)]
 
 
+def grammar_tokens():
+    """The SVG number grammar spelt out: sign x mantissa form x exponent form, every combination
+    (sign? (digits | digits '.' | '.' digits | digits '.' digits) ([eE] sign? digits)?)."""
+    from decimal import Decimal           # pylint: disable=import-outside-toplevel
+    out = []
+    for sign in ("", "+", "-"):
+        for mant in ("7", "12.", ".5", "2.5", "040", "1.250"):
+            for exp in ("", "e1", "E1", "e+1", "E+1", "e-1", "E-1", "e0", "E-0", "E-2", "e02",
+                        "E+02", "e-01"):
+                text = sign + mant + exp
+                out.append((text, float(Decimal(text))))
+    return out
+
+
+def _grammar_chunk(tokens):
+    """Each spelling in each of the four positions, the other three numbers plain."""
+    part = core.Part()
+    plain = [("-3", -3), ("2", 2), ("10", 10), ("40", 40)]
+    for token in tokens:
+        for pos in range(4):
+            if pos >= 2 and token[1] <= 0:
+                continue
+            four = tuple(token if k == pos else plain[k] for k in range(4))
+            for par in (None, "xMaxYMin slice", "none", "xMidYMid meet"):
+                for clause, msg in check_spelled(four, (30, 20), par):
+                    part.violation(f"{clause}:grammar:{token[0]}:{pos}:{par}", msg,
+                                   {"kind": "spelled", "tokens": [list(t) for t in four],
+                                    "par": par, "doc": [30, 20]})
+                part.count("valid_cases")
+                part.count("spelled_cases")
+                part.count("grammar_cases")
+    return part
+
+
 def check_spelled(tokens, doc, par):
     """tokens: four (text, value) pairs; the result must be that of the canonical spelling."""
     plot_utils = _lib()
@@ -380,6 +414,7 @@ def run(ctx):
     jobs += [(chunk, NEAR_DOCS) for chunk in core.split(near, 12)]
     part = core.fan_out(ctx, _chunk, jobs)
     part.merge(core.fan_out(ctx, _spelled_chunk, [[sp] for sp in SPELLED]))
+    part.merge(core.fan_out(ctx, _grammar_chunk, core.split(grammar_tokens(), 16)))
     part.merge(core.fan_out(ctx, _separator_chunk, [[case] for case in SEPARATOR_CASES]))
     part.merge(core.fan_out(ctx, _rounded_chunk, core.split(rounded_page_cases(), 8)))
     part.merge(core.fan_out(ctx, _rounded_chunk, core.split(far_origin_cases(), 4)))
@@ -423,8 +458,8 @@ def replay(case):
         from .. import callforms          # pylint: disable=import-outside-toplevel
         return callforms.replay(case)
     if case["kind"] == "spelled":
-        return [m for _c, m in check_spelled(tuple(tuple(t) for t in case["tokens"]), (100, 60),
-                                             case["par"])]
+        return [m for _c, m in check_spelled(tuple(tuple(t) for t in case["tokens"]),
+                                             tuple(case.get("doc", (100, 60))), case["par"])]
     if case["kind"] == "invalid":
         return [m for _c, m in check_invalid(tuple(case["case"]))]
     vbox, doc = tuple(case["vbox"]), tuple(case["doc"])
